@@ -299,6 +299,12 @@ func (r *Run) Nontrivial(key string) {
 func (r *Run) Count(name string, n int) {
 	r.mu.Lock()
 	r.counters[name] += int64(n)
+	// circuit breaker: when far more cases than ever seen on a healthy tree blow their step budget, the
+	// tree under test is spinning; stop instead of burning hours, and say the run decided nothing
+	if name == "skipped_expensive" && r.counters[name] > 500+r.evaluations/100 {
+		r.inconclusive["exploration stopped: too many cases exceeded their step budget"]++
+		r.abortOnce.Do(func() { close(r.abortCh) })
+	}
 	r.mu.Unlock()
 }
 
